@@ -1,6 +1,6 @@
 (* C02 - property theorems.  Model: V.C02.Model (SmodelsConvert/SmData call-for-call, SmodelsOutput's acceptance
    conditions); specification-side definitions: V.C02.Spec; reference semantics: V.C02.Sem. *)
-Require Import V.Lib.Base V.Lib.Calls V.Gen.Consts V.Gen.Consts_C02 V.C02.Model V.C02.Spec V.C02.ProofsMap V.C02.ProofsErr V.C02.Sem V.C02.ProofsSem V.C02.ProofsIso V.C02.ProofsShape.
+Require Import V.Lib.Base V.Lib.Calls V.Gen.Consts V.Gen.Consts_C02 V.C02.Model V.C02.Spec V.C02.ProofsMap V.C02.ProofsErr V.C02.Sem V.C02.ProofsSem V.C02.ProofsIso V.C02.ProofsShape V.C02.ProofsDefExt V.C02.ProofsWeight.
 Local Open Scope Z_scope.
 
 (* (1) The atom map.  For EVERY call sequence p (any mix of directives, any number of steps, extensions on or off) that the
@@ -133,4 +133,93 @@ Proof.
   split; [reflexivity|]. split; [repeat (apply Forall_cons; [vm_compute; auto|]); apply Forall_nil|].
   split; [repeat (apply Forall_cons; [split; repeat constructor; lia|]); apply Forall_nil|].
   do 2 eexists. split; [vm_compute; reflexivity|]. split; [vm_compute; discriminate | vm_compute; reflexivity].
+Qed.
+
+(* (5) Definitional extension (building block B, over the reference semantics only).  Adding a FRESH atom x defined by
+   exactly one rule  x :- B  (B does not mention x, weights in B >= 0), where x occurs elsewhere in no head and in bodies only
+   as the whole positive body `[x]` (the converter's two uses: `H :- aux` after `aux :- sum`, and `aux :- cond` used by no
+   rule at all), is a bijection of stable models: X |-> X + [x := X |= B] from the program in which those bodies are
+   replaced by B (unfold1) to the extended program, with inverse X' |-> X' - x; x has the value of B in every stable model.
+   ProofsDefExt.defext_sound/complete/values prove the same for a LIST of such definitions at once (used below). *)
+Theorem c02_defext : forall x B P',
+  0 < x -> ~ In x (body_atoms B) -> body_nonneg B ->
+  (forall r, In r P' -> ~ In x (r_head r) /\ (r_body r = BNormal [x] \/ ~ In x (body_atoms (r_body r)))) ->
+  let Q := mkRule false [x] B :: P' in
+  let P := map (unfold1 x B) P' in
+  (forall X, stable P X -> stable Q (ext1 x B X)) /\
+  (forall X', stable Q X' -> stable P (drop1 x X') /\ X' x = bsat X' X' B) /\
+  (forall X a, X x = false -> drop1 x (ext1 x B X) a = X a) /\
+  (forall X' a, stable Q X' -> ext1 x B (drop1 x X') a = X' a).
+Proof. exact defext_single. Qed.
+Print Assumptions c02_defext.
+
+Example c02_defext_nonvacuous :
+  (* {a;b}.  c :- x.   x :- 1 <= #sum{a=1; not b=1}   (a=1 b=2 x=3 c=4) *)
+  let x := 3 in let B := BSum 1 [(1, 1); (-2, 1)] in
+  let P' := [mkRule true [1; 2] (BNormal []); mkRule false [4] (BNormal [3])] in
+  0 < x /\ ~ In x (body_atoms B) /\ body_nonneg B /\
+  (forall r, In r P' -> ~ In x (r_head r) /\ (r_body r = BNormal [x] \/ ~ In x (body_atoms (r_body r)))) /\
+  map (unfold1 x B) P' = [mkRule true [1; 2] (BNormal []); mkRule false [4] B] /\
+  enum_stable [1; 2; 3; 4] (mkRule false [x] B :: P') = [[3; 4]; [2]; [1; 3; 4]; [1; 2; 3; 4]].
+Proof.
+  cbv zeta. split; [lia|]. split; [simpl; intuition lia|]. split; [simpl; repeat (apply Forall_cons; [simpl; lia|]); apply Forall_nil|].
+  split; [|split; vm_compute; reflexivity].
+  intros r [<-|[<-|[]]]; simpl.
+  - split; [intuition lia | right; intuition lia].
+  - split; [intuition lia | left; reflexivity].
+Qed.
+
+(* (6) Weight rules (A1).  Shape: for one weight-rule call, in terms of the atom map m of ANY later state sf (the final one),
+   the converter emits  emitA m c ann:  nothing for an empty choice head; the direct smodels rule
+   `hd'(H) :- bound <= sum(renamed body)` when H is not a choice, has at most one atom (none = the false atom) and bound >= 0;
+   otherwise `aux :- sum`, `hd'(H) :- aux` with ann = Some aux, aux in [next s, next s1), an auxiliary atom of sf; every atom
+   of a kept rule is mapped (mappedA). *)
+Theorem c02_wrule_shape : forall ext s c s1 out sf,
+  is_wrule c = true -> cv_call ext s c = Ok (s1, out) -> Inv s -> good s1 sf -> next sf <= 2 ^ smid_bits ->
+  exists ann, out = emitA (img sf) c ann /\ ann_ok c ann /\ mappedA (img sf) c /\
+    match ann with Some x => next s <= x < next s1 /\ In x (auxs sf) | None => True end.
+Proof. exact wrule_call_shape. Qed.
+Print Assumptions c02_wrule_shape.
+
+(* Equivalence END TO END through the converter model for programs of plain and weight rules (any heads, normal and weight
+   bodies with weights >= 0 and literals <> 0 - call_wf -, any bound: a negative bound is converted by the split and only the
+   smodels writer rejects it, c02_errors), any reachable start state, extensions on or off:
+   there is a list D of definitions `aux :- renamed sum` (the aux atoms of the split rules, all auxiliary atoms of the final
+   state) such that  X |-> extD D (push m atoms X)  maps the stable models of the input rules onto the stable models of the
+   emitted rules that make the false atom false, agrees with X on every mapped atom, gives every aux atom the value of its
+   sum, and has the inverse  X' |-> pull m atoms X'  (both round trips are the identity). *)
+Theorem c02_equiv_weight : forall ext ds s s1 out,
+  forallb is_rw ds = true -> Forall call_wf ds -> cv_run ext s ds = Ok (s1, out) -> Inv s -> next s1 <= 2 ^ smid_bits ->
+  let m := img s1 in let R := rules_of ds in let atoms := flat_map rule_atoms (filter keep R) in
+  exists D, defs_ok D /\ (forall x, isdef D x = true -> In x (auxs s1)) /\
+    (forall a b, In a atoms -> In b atoms -> m a = m b -> a = b) /\
+    (forall X, stable R X ->
+       let X' := extD D (push m atoms X) in
+       stable (rules_of out) X' /\ X' false_atom = false /\ (forall a, In a atoms -> X' (m a) = X a) /\
+       (forall x B, dlook D x = Some B -> X' x = bsat X' X' B)) /\
+    (forall X', stable (rules_of out) X' -> X' false_atom = false ->
+       stable R (pull m atoms X') /\ forall y, extD D (push m atoms (pull m atoms X')) y = X' y) /\
+    (forall X a, stable R X -> pull m atoms (extD D (push m atoms X)) a = X a).
+Proof. exact equiv_wrules. Qed.
+Print Assumptions c02_equiv_weight.
+
+Example c02_equiv_weight_nonvacuous :
+  (* {a;b}.  c :- 1 <= {a=1; not b=2}  (direct).   {c;d} :- 2 <= {a=1; b=1}  (split).   :- 1 <= {d=1}  (false atom, direct) *)
+  let ds := [CRule 1 [1; 2] []; CWRule 0 [3] 1 [(1, 1); (-2, 2)]; CWRule 1 [3; 4] 2 [(1, 1); (2, 1)]; CWRule 0 [] 1 [(4, 1)]] in
+  forallb is_rw ds = true /\ Forall call_wf ds /\
+  exists s1 out, cv_run false cv0 ds = Ok (s1, out) /\ next s1 <= 2 ^ smid_bits /\
+    rules_of out = [mkRule true [2; 3] (BNormal []); mkRule false [4] (BSum 1 [(2, 1); (-3, 2)]);
+                    mkRule false [6] (BSum 2 [(2, 1); (3, 1)]); mkRule true [4; 5] (BNormal [6]);
+                    mkRule false [1] (BSum 1 [(5, 1)])].
+Proof.
+  cbv zeta. split; [reflexivity|]. split.
+  - repeat match goal with
+           | |- Forall _ (_ :: _) => apply Forall_cons
+           | |- Forall _ [] => apply Forall_nil
+           | |- _ /\ _ => split
+           | |- _ \/ _ => first [left; reflexivity | right; reflexivity]
+           | |- _ => progress simpl
+           | |- _ => lia
+           end.
+  - do 2 eexists. split; [vm_compute; reflexivity|]. split; [vm_compute; discriminate | vm_compute; reflexivity].
 Qed.
